@@ -6,15 +6,17 @@ that (a) the demo passes on the clean tree, (b) with the patch the existing suit
 checks against the patched scratch tree and record which fire. Confirmed changes are stored under /verif/seeded/<id>-<k>/."""
 import json, os, shutil, subprocess, sys
 out, prop = sys.argv[1], sys.argv[2]
+TAG = os.environ.get("SEED_TAG", "")          # e.g. "r2-" for the second round
+SRCBASE = os.environ.get("SEED_SRC", "/tmp/adv")
 ALL = ["C01", "C02", "C03", "C04", "C05", "C06", "C07", "C08", "C09", "C10", "C11", "C12", "C13", "C15", "C16", "C17", "C18"]
-WT = "/tmp/seedchk_%s" % prop
+WT = "/tmp/seedchk_%s%s" % (TAG.replace("-", ""), prop)
 TGT = WT + "/target"
 def sh(cmd, cwd=None, env=None):
     return subprocess.run(cmd, shell=True, cwd=cwd, env=env, capture_output=True, text=True)
 if not os.path.exists(WT):
     sh("git -C /repo worktree add -f %s HEAD" % WT)
     shutil.copy("/repo/Cargo.lock", WT)
-    src = "/tmp/adv/wt_%s/target" % prop
+    src = "%s/wt_%s/target" % (SRCBASE, prop)
     if os.path.exists(src) and not os.path.exists(TGT):
         sh("cp -r %s %s" % (src, TGT))
 env = dict(os.environ, CARGO_TARGET_DIR=TGT, CARGO_NET_OFFLINE="true")
@@ -67,7 +69,7 @@ for k in (1, 2, 3):
            "suite_passes_with_patch": suite_ok, "release_only": bool(meta.get("release_only")), "checks_fired": fired, "caught_by_own_property": prop in fired}
     results.append(rec)
     if confirmed:
-        d = "/verif/seeded/%s-%d" % (prop, k)
+        d = "/verif/seeded/%s-%s%d" % (prop, TAG, k)
         os.makedirs(d, exist_ok=True)
         shutil.copy(pf, d + "/patch.diff")
         shutil.copy(df, d + "/demo.rs")
